@@ -1,11 +1,27 @@
 """Developer tool: regenerate MANIFEST.json from the table below (keeps it valid at all times)."""
 import json, os
-CLAIMED = {
- 'C08': dict(engine='E1 rxsmt', technique='bounded SMT (z3 QF_BV) language equivalence of the real translate() regexes vs the regexes the real matcher executes, symbolic name',
-   text='For every enumerated (pattern list, exclusions, flags) the real translate() and compile() are executed on the current tree, their regexes parsed with re._parser and encoded positionally; z3 decides equality of the two languages for ALL names up to the stated length (unsat = equal), a sat model is replayed through the public API before it is reported. Capture-group count compared with the generator AST.',
-   note='Trusted: z3; the positional encoder (validated per obligation with an accepted and a rejected witness through re.fullmatch); re._parser being the front end of the engine. Bounds: name length <= 6 (quick) / 8 (thorough); patterns enumerated from the generator pools, not symbolic.',
-   ref='DESIGN.md section 3, section 6 C08'),
-}
+CLAIMED = {}
+def claim(i, engine, technique, text, note, ref):
+    CLAIMED[i] = dict(engine=engine, technique=technique, text=text, note=note, ref=ref)
+E1NOTE = 'Trusted: z3 (QF_BV); the positional regex encoder engine/rxsmt.py (every obligation replays an accepted and a rejected solver witness through re.fullmatch; any mismatch is exit 3); re._parser being the front end of the C engine. Patterns/flags are enumerated from generator pools (not symbolic); names are symbolic up to the stated length; a sat model is replayed through the public API in a clean interpreter before VIOLATION is printed; unknown/timeouts are exit 3.'
+claim('C01', 'E1 rxsmt + spec', 'bounded SMT (z3 QF_BV): independent spec AST vs the regex the real fnmatch compile produces, symbolic name',
+  'Per generated pattern AST and flag set the real fnmatch.compile is run, its executed regexes are encoded, the documented language of the AST (engine/spec.py) is encoded over the same symbolic name, and z3 decides must=>impl and impl=>may for ALL names up to length 6 (quick) / 8 (thorough) not beginning with a dot unless DOTMATCH. Known-finding regions are subtracted inside the query.', E1NOTE + ' Spec AST semantics reviewed against the property text.', 'DESIGN.md 3, 6 C01')
+claim('C02', 'E1 rxsmt + spec', 'bounded SMT (z3 QF_BV): path spec (segments, separators, globstar, MATCHBASE, NODIR) vs real glob regexes, symbolic path',
+  'Same as C01 in path mode: the real glob.compile regexes vs the segment-wise path specification, for all paths up to length 7 (quick) / 9 (thorough) whose segments are not hidden (unless DOTGLOB) and not . or ..', E1NOTE, 'DESIGN.md 3, 6 C02')
+claim('C03', 'E1 rxsmt + spec', 'bounded SMT (z3 QF_BV): dot rule of the spec vs real fnmatch/glob regexes on the hidden-name domain, symbolic name/path',
+  'Match side of C03: the same spec-vs-implementation obligations on the complementary domain (some segment begins with a dot, or is . / .. under DOTGLOB), fnmatch and glob mode, DOTGLOB/NODOTDIR/GLOBSTAR/MATCHBASE/EXTGLOB. The walk side (glob()/WcMatch results on trees) is covered by the symfs checks when present.', E1NOTE + ' Deviations listed under C01/C02 are excluded from the domain as stated exclusions.', 'DESIGN.md 6 C03')
+claim('C07', 'E1 rxsmt', 'bounded SMT (z3 QF_BV): language of the combined list/SPLIT/BRACE matcher == boolean combination of single-pattern real regexes',
+  'For each generated list / exclusion / inline-negation / SPLIT / BRACE form the regexes of the real combined matcher are compared, for all names up to N, with OR(single inclusions) AND NOT OR(single exclusions compiled with DOTMATCH); translate() list lengths compared concretely.', E1NOTE + ' Brace expansion itself is bracex (trusted).', 'DESIGN.md 6 C07')
+claim('C08', 'E1 rxsmt', 'bounded SMT (z3 QF_BV): language equivalence of the real translate() regexes vs the regexes the real matcher executes, symbolic name',
+  'For every enumerated (pattern list, exclusions, flags) the real translate() and compile() are executed on the current tree; z3 decides equality of the two languages for ALL names up to the stated length; every translate regex must compile; capture-group count compared with the generator AST.', E1NOTE, 'DESIGN.md 3, 6 C08')
+claim('C09', 'E1 rxsmt', 'bounded SMT (z3 QF_BV): language of compile(escape(s)) / of a non-magic p is exactly the literal equivalence class, symbolic name',
+  'For every enumerated string s (all strings up to length 2/3 over a 24-symbol alphabet + seeded longer, drive/UNC shapes) and a covering sample of flag subsets, z3 decides that the regexes of the real compile(escape(s), flags) accept exactly s modulo the mode equivalences; converse for is_magic False.', E1NOTE + ' s is enumerated, not symbolic.', 'DESIGN.md 6 C09')
+claim('C17', 'E1 rxsmt', 'bounded SMT (z3 QF_BV): relational queries over two tied symbolic names (ASCII case swap, separator swap, backslash->slash) on real regexes',
+  'Closure and equivalence claims of the case/platform flags decided for all name pairs up to N: case-insensitive modes closed under ASCII case changes of name and literal pattern text, CASE wins, FORCEWIN|FORCEUNIX cancel, FORCEWIN separator interchange, Windows == Unix+IGNORECASE on the normalised name, drive/UNC prefixes literal and case-insensitive.', E1NOTE + ' ASCII case only.', 'DESIGN.md 6 C17')
+claim('C18', 'E1 rxsmt', 'bounded SMT (z3 QF_BV): bytes-call regexes vs str-call regexes on Latin-1-tied symbolic names; concrete equality of translate/escape/is_magic',
+  'Regex level of C18: for each (patterns, flags, exclude) the verdict of the bytes matcher on b equals the verdict of the str matcher on the Latin-1 decoding of b for all b up to N (0..0xFF; 0..0x7F in case-insensitive modes); TypeError clause concretely. glob()/WcMatch str-vs-bytes results are in the symfs checks when present.', E1NOTE, 'DESIGN.md 6 C18')
+claim('C20', 'E1 rxsmt', 'bounded SMT (z3 QF_BV): language of compile(p, RAWCHARS) == language of compile(D(p)) with an independent decoder D; exception classes compared concretely',
+  'For every enumerated escape-token string p (str and bytes, fnmatch and glob, with/without FORCEWIN): RAWCHARS compile vs compile of the independently decoded pattern, and non-RAWCHARS compile vs the plainly unescaped pattern, as language equalities over a symbolic name; SyntaxError/lookup errors vs the decoder prediction.', E1NOTE + ' The hand-written decoder is the reference reading.', 'DESIGN.md 6 C20')
 NA_REASON = 'check not built yet in this round of work (planned engine per DESIGN.md section 6); not claimed until its check exists'
 ids = [json.loads(l)['id'] for l in open('/verif/properties.jsonl')]
 man = {
